@@ -110,7 +110,7 @@ func runC08(c *Ctx) error {
 	// ---- (b)
 	iters := 120
 	if !c.quick() {
-		iters = 2500
+		iters = 20000
 	}
 	apis := []string{"message", "writev", "async", "broadcast", "file", "ping", "writevasync", "string", "pong", "broadcast-close-early"}
 	for it := 0; it < iters; it++ {
